@@ -620,45 +620,38 @@ def pattern(n, a=7, b=3):
     return (unit * (n // 4096 + 1))[:n]
 
 
-def _plugin_classes():
-    from proxy.http.server import HttpWebServerBasePlugin, ReverseProxyBasePlugin, httpProtocolTypes
-    from proxy.http.responses import okResponse
-
-    class C17WebPlugin(HttpWebServerBasePlugin):
-        """web server routes of the scenario corpus"""
-
-        def routes(self):
-            return [(httpProtocolTypes.HTTP, r'/c17/hello$'), (httpProtocolTypes.HTTP, r'/c17/big$')]
-
-        def handle_request(self, request):
-            if request.path == b'/c17/hello':
-                self.client.queue(okResponse(content=b'hello from the web route', compress=False,
-                                             headers={b'Content-Type': b'text/plain'}))
-            else:
-                self.client.queue(okResponse(content=pattern(WEB_BIG, 11, 5), compress=False,
-                                             headers={b'Content-Type': b'application/octet-stream'},
-                                             conn_close=True))
-
-    class C17ReversePlugin(ReverseProxyBasePlugin):
-        """reverse proxy route /rev/... -> the local HTTP origin"""
-
-        def routes(self):
-            return [(r'/rev/(.*)$', [b'http://127.0.0.1:%d/' % ORIGIN['http']])]
-
-    return C17WebPlugin, C17ReversePlugin
+from proxy.http.server import HttpWebServerBasePlugin, ReverseProxyBasePlugin, httpProtocolTypes   # noqa: E402
+from proxy.http.responses import okResponse     # noqa: E402
 
 
-C17WebPlugin = None
-C17ReversePlugin = None
+class C17WebPlugin(HttpWebServerBasePlugin):
+    """web server routes of the scenario corpus"""
+
+    def routes(self):
+        return [(httpProtocolTypes.HTTP, r'/c17/hello$'), (httpProtocolTypes.HTTP, r'/c17/big$')]
+
+    def handle_request(self, request):
+        if request.path == b'/c17/hello':
+            self.client.queue(okResponse(content=b'hello from the web route', compress=False,
+                                         headers={b'Content-Type': b'text/plain'}))
+        else:
+            self.client.queue(okResponse(content=pattern(WEB_BIG, 11, 5), compress=False,
+                                         headers={b'Content-Type': b'application/octet-stream'},
+                                         conn_close=True))
+
+
+class C17ReversePlugin(ReverseProxyBasePlugin):
+    """reverse proxy routes /rev/... -> the local HTTP origin (the route's URL replaces the path)"""
+
+    def routes(self):
+        o = ORIGIN['http']
+        return [(r'/rev/small$', [b'http://127.0.0.1:%d/len/5000' % o]),
+                (r'/rev/big$', [b'http://127.0.0.1:%d/len/1048576' % o]),
+                (r'/rev/close$', [b'http://127.0.0.1:%d/close/70000' % o])]
 
 
 def _ensure_plugins():
-    global C17WebPlugin, C17ReversePlugin
-    if C17WebPlugin is None:
-        C17WebPlugin, C17ReversePlugin = _plugin_classes()
-        C17WebPlugin.__module__ = C17ReversePlugin.__module__ = __name__
-        C17WebPlugin.__qualname__ = 'C17WebPlugin'
-        C17ReversePlugin.__qualname__ = 'C17ReversePlugin'
+    pass
 
 
 class Origin:
@@ -906,8 +899,16 @@ class _Conv:
                     pass
 
 
-def _dg(x):
+def _canon(x):
+    """the only canonicalisation: the harness-chosen origin ports (they differ per Proxy instance)"""
     x = bytes(x)
+    for name in ('http', 'echo', 'dead'):
+        x = x.replace(b':%d' % ORIGIN[name], b':<%s>' % name.encode())
+    return x
+
+
+def _dg(x):
+    x = _canon(x)
     return '%d:%08x' % (len(x), zlib.crc32(x) & 0xffffffff)
 
 
@@ -978,8 +979,11 @@ def build_convs(case, pport):
             return [('send', b'GET /%s HTTP/1.1\r\nHost: px\r\n\r\n' % STATIC_NAME.encode()), ('sleep', 0.4),
                     ('eof',)]
         if scn == 'reverse':
-            return [('send', b'GET /rev/len/%d HTTP/1.1\r\nHost: px\r\nConnection: close\r\n\r\n' % sz),
-                    ('http',), ('eof',)]
+            which = b'small' if size < 100000 else b'big'
+            return [('send', b'GET /rev/' + which + b' HTTP/1.1\r\nHost: px\r\n\r\n'), ('http',), ('shut',),
+                    ('eof',)]
+        if scn == 'reverse_close':
+            return [('send', b'GET /rev/close HTTP/1.1\r\nHost: px\r\n\r\n'), ('eof',)]
         if scn == 'reject_400':
             return [('send', b'THIS-IS-NOT-HTTP-%d\r\n\r\n' % i), ('eof',)]
         if scn == 'reject_400_bad_version':
@@ -1013,6 +1017,7 @@ QUICK_SCENARIOS = [
     ('fwd_persistent', 5000, 1), ('fwd_close_delim', 200000, 1), ('fwd_chunked', 4500, 1),
     ('fwd_origin_error', 1, 1), ('tunnel_echo', 3000, 1), ('tunnel_echo', 1048576, 1),
     ('web_404', 1, 1), ('web_route', 1, 1), ('web_big', 1, 1), ('web_static', 1, 1), ('reverse', 5000, 1),
+    ('reverse', 1048576, 1), ('reverse_close', 1, 1),
     ('reject_400', 1, 1), ('reject_400_bad_version', 1, 1), ('refused_502', 1, 1), ('refused_connect_502', 1, 1),
     ('auth_407', 10, 1), ('auth_407_connect', 1, 1), ('auth_ok', 2000, 1), ('client_closes_idle', 1, 1),
     ('fwd_post', 1048576, 1), ('fwd_post', 20000, 3), ('mixed', 40000, 4),
@@ -1447,9 +1452,16 @@ def gen_h(rng, big=False):
         n = rng.randint(1, 8)
         ticks = [[rng.choice(['m0000', 'm0000', 'm0100', 'm1000', 'm0010']), 'b', R.gen_send(rng, 0.0),
                   'b', R.gen_send(rng, 0.0)] for _ in range(n)]
+    if rng.random() < 0.6:
+        # bring the conversation to an end: the client half-closes (or the final flush goes on), then drains
+        if setup in ('tunnel', 'http') and rng.random() < 0.7:
+            ticks.append(['m1' + rng.choice('01') + '00', rng.choice(['e', 'e', 'r']), R.gen_send(rng, 0.0), 'b', 'b'])
+        room = 6 if mx not in (1, 7) else 60
+        ticks += [['m0100', 'b', ['s', 10 ** 6], 'b', 'b'] for _ in range(rng.randint(1, room))]
     ticks = _mask_ticks(ticks)
     pexp = rng.choice([0.0, 0.0, 0.1, 0.4])
-    return h_case(setup, ticks, mx, extra, _exp(rng, len(ticks), pexp), _flush_script(rng, pfail, 8 if not big else 40))
+    room = (8 if not big else 40) * (1 if mx not in (1, 7) else 25)
+    return h_case(setup, ticks, mx, extra, _exp(rng, len(ticks), pexp), _flush_script(rng, pfail, room))
 
 
 def h_systematic(depth):
@@ -1509,7 +1521,7 @@ def live_cases(tier, rng):
                 out.append(live_case(scn, size, conc, nw))
             for _ in range(6):
                 scn = rng.choice(['fwd_post', 'fwd_get_keep', 'fwd_persistent', 'tunnel_echo', 'fwd_chunked',
-                                  'fwd_close_delim', 'reverse', 'mixed'])
+                                  'fwd_close_delim', 'mixed'])
                 out.append(live_case(scn, rng.choice([1, 17, 4095, 65536, 65537, 131073, 700001]),
                                      rng.choice([1, 2, 3, 4]), nw))
     return out
